@@ -644,27 +644,22 @@ impl<'a> Parser<'a> {
         } else if self.parse_keywords(&[Keyword::LOGS]) {
             FlushType::Logs
         } else if self.parse_keywords(&[Keyword::TABLES]) {
+            // FLUSH TABLES [tbl_name [, tbl_name] ...] [WITH READ LOCK] [FOR EXPORT]
+            match self.peek_token().token {
+                Token::Word(w) if w.keyword != Keyword::WITH && w.keyword != Keyword::FOR => {
+                    tables = self.parse_comma_separated(|p| p.parse_object_name(false))?;
+                }
+                _ => {}
+            }
             loop {
-                let next_token = self.next_token();
-                match &next_token.token {
-                    Token::Word(w) => match w.keyword {
-                        Keyword::WITH => {
-                            read_lock = self.parse_keywords(&[Keyword::READ, Keyword::LOCK]);
-                        }
-                        Keyword::FOR => {
-                            export = self.parse_keyword(Keyword::EXPORT);
-                        }
-                        Keyword::NoKeyword => {
-                            self.prev_token();
-                            tables = self.parse_comma_separated(|p| p.parse_object_name(false))?;
-                        }
-                        _ => {}
-                    },
-                    _ => {
-                        // not part of the statement (`;` or end of input): leave it in the stream
-                        self.prev_token();
-                        break;
-                    }
+                if !read_lock && self.parse_keyword(Keyword::WITH) {
+                    self.expect_keywords(&[Keyword::READ, Keyword::LOCK])?;
+                    read_lock = true;
+                } else if !export && self.parse_keyword(Keyword::FOR) {
+                    self.expect_keyword(Keyword::EXPORT)?;
+                    export = true;
+                } else {
+                    break;
                 }
             }
 
